@@ -436,6 +436,31 @@ impl Pcap {
         Self::new_with_magic(file, PCAP_MAGIC_US)
     }
 
+    /// Start an output stream that carries the same global header as 'input'
+    pub fn new_like(file: Rc<FileHandle>, input: &Pcap) -> io::Result<Self> {
+        let bytes: Vec<u8> = (&*input.header.borrow()).into();
+        let global_header = PcapGlobalHeader::from_bytes(&bytes)?;
+        match file.as_ref() {
+            FileHandle::Writer(writer) => {
+                writer.borrow_mut().write_all(&bytes)?;
+            }
+            FileHandle::Stdout => {
+                io::stdout().write_all(&bytes)?;
+            }
+            _ => {
+                return Err(io::Error::new(
+                    io::ErrorKind::InvalidData,
+                    "Invalid file handle",
+                ))
+            }
+        }
+        Ok(Self {
+            file,
+            header: RefCell::new(global_header),
+            ts_format: PcapTsFormat::MicroSeconds,
+        })
+    }
+
     /// Read next packet from a pcap file
     pub fn next_packet(&self) -> io::Result<Rc<PcapPacket>> {
         let mut packet_header_data = [0u8; 16]; // Size of pcap packet header
